@@ -9,7 +9,9 @@ EXPLANATION = (
     "ladder as serialize.h's WriteCompactSize (third sibling): classes [<253 | <=0xFFFF | <=0xFFFFFFFF | else], markers 253/254/255, "
     "payload widths 1/2/4/8. R14.3 compositions: do_hash256 = sha256;sha256 and do_hash160 = sha256;ripemd160 as call sequences, and "
     "the opcode forms OP_HASH256 / OP_HASH160 use CHash256 / CHash160 whose Finalize has the same composition. R14.4 a failed "
-    "decode does not fall through into an unchecked use of the (empty) result. The hash, codec and arithmetic values themselves are "
+    "decode does not fall through into an unchecked use of the (empty) result. R14.5 the modular add helper reduces by one conditional "
+    "subtraction of g, which is only right for operands below g: no caller may hand it an operand computed by the modulus-free unary "
+    "minus (negation modulo 2^256) unless that negation is guarded by `g == 0`. The hash, codec and arithmetic values themselves are "
     "NOT decided.")
 TRUSTED = ["clang 14 parser/Sema/constant evaluator/CFG", "/verif extractor"]
 ASSUMPTIONS = ["ENABLE_DANGEROUS is undefined in the analysed configuration (those rows are not compiled and not analysed)"]
@@ -172,10 +174,56 @@ def run(ctx, anchors=None):
             ctx.inst(guarded, "R14.4", "nonempty-before-use:%s:%s" % (name.split("::")[-1], cont), f.loc(u),
                      "%s is known non-empty before `%s`" % (cont, astq.estr(u)[:40]),
                      "%s uses `%s` although %s can be empty after a failed decode (reads/erases at begin() of an empty vector -> crash)" % (name, astq.estr(u)[:40], cont))
+    # ---- R14.5
+    ctx.rule("R14.5", "no operand of the modular add helper is negated modulo 2^256 when a modulus g is in force")
+    helper = [f for f in fb.fns("add") if f.file == "value.cpp" and f.body is not None]
+    if len(helper) != 1:
+        raise AnalysisBroken("R14.5: the modular add helper add(data, a, b, g) of value.cpp was not found")
+    helper = helper[0]
+    n_ops = 0
+    for f in fb.funcs.values():
+        if f.file != "value.cpp" or f.body is None:
+            continue
+        for call in f.nodes():
+            if call["k"] != "call" or call.get("cid") != helper.id or len(call["args"]) != 4:
+                continue
+            gname = astq.estr(call["args"][3])
+            cfg = f.cfg()
+            for opnd in call["args"][1:3]:
+                base = [x for x in walk(opnd) if x["k"] == "ref" and x.get("dk") == "local"]
+                if not base:
+                    continue
+                v = base[0]["n"]
+                n_ops += 1
+                ctx.site()
+                bad = None
+                for a in f.nodes():
+                    if not (a["k"] == "opcall" and a.get("op") == "=" and len(a["args"]) == 2 and astq.estr(a["args"][0]) == v):
+                        continue
+                    negs = [x for x in walk(a["args"][1]) if x["k"] in ("opcall", "un") and x.get("op") == "-" and len(x.get("args", [0])) == 1]
+                    if not negs:
+                        continue
+                    guarded = False
+                    for (c, t) in cfg.guards_of(a):
+                        cn = f.node_by_id(c)
+                        txt = astq.estr(cn) if cn is not None else ""
+                        if t is True and txt.replace(" ", "") in (gname + ".EqualTo(0)", "(" + gname + "==0)", gname + "==0"):
+                            guarded = True
+                        if t is False and txt.replace(" ", "") in ("!" + gname + ".EqualTo(0)", "(" + gname + "!=0)", gname + "!=0"):
+                            guarded = True
+                    if not guarded:
+                        bad = a
+                ctx.inst(bad is None, "R14.5", "modular-operand:%s:%s" % (f.name.split("::")[-1], v), f.loc(bad if bad is not None else call),
+                         "operand %s of add(..., %s) is never a bare negation modulo 2^256" % (v, gname),
+                         "%s passes %s to the modular helper add(..., %s) after `%s`, a negation modulo 2^256 that is not restricted to %s == 0: "
+                         "with a modulus the single conditional subtraction in add() then yields a - b - g (mod 2^256) instead of (a - b) mod g"
+                         % (f.name, v, gname, astq.estr(bad)[:50] if bad is not None else "", gname))
+    ctx.floor("R14.5", n_ops, 4, "operands handed to the modular add helper")
     ctx.extra["inline_names"] = sorted(arms)
 
 
 MUTANTS = [
+    dict(name="sub-negates-mod-2^256", file="value.cpp", find="if (g.EqualTo(0)) b = -b; else if (!b.EqualTo(0)) b = g - b;", replace="b = -b;", expect=["R14.5:modular-operand:do_sub:b"]),
     dict(name="inline-alias-removed", file="value.h", find="        if (fun == \"b32d\") { do_bech32dec(); return true; }\n", replace="", expect=["R14.1:inline=b32d"]),
     dict(name="inline-dispatches-elsewhere", file="value.h", find="if (fun == \"b58ce\") { do_base58chkenc(); return true; }", replace="if (fun == \"b58ce\") { do_base58chkdec(); return true; }", expect=["R14.1:inline=b58ce"]),
     dict(name="row-bound-to-other-command", file="functions.cpp", find="TF (\"[message] perform SHA256\", sha256),", replace="{ \"sha256\", \"sha256\", \"[message] perform SHA256\", _e_hash256 },", expect=["R14.1:inline=sha256"]),
